@@ -51,13 +51,16 @@ def lean_phase(ctx: Ctx, status, prop_modules, kernels=(), extra_modules=(), gen
     for m in prop_modules:
         path = os.path.join(LEAN, m.replace(".", "/") + ".lean")
         names = common.theorems_in(path)
-        bad = m in errs
+        # any failing module in this build is a dependency of the property's targets: lake then keeps a stale .olean of
+        # the property module, so its theorems must not be counted as discharged
+        bad = bool(errs)
         for t in names:
             ctx.obligations[t] = not bad
         theorems += names
         if bad:
-            ctx.fail("lean:" + m, f"property theorems in {m} no longer check: " + "; ".join(errs[m][:3]),
-                     {"module": m, "errors": errs[m][:5]}, found_input=False, kind="obligation")
+            why = errs.get(m) or [f"dependency {k} fails: {v[0]}" for k, v in list(errs.items())[:3]]
+            ctx.fail("lean:" + m, f"property theorems in {m} no longer check: " + "; ".join(why[:3]),
+                     {"module": m, "errors": why[:5]}, found_input=False, kind="obligation")
     for k, o in gen_ob.items():
         bad = o["module"] in errs
         ctx.obligations[o["theorem"]] = not bad
